@@ -4,6 +4,7 @@ package main
 import (
 	"bytes"
 	"encoding/hex"
+	"reflect"
 	"strings"
 
 	"github.com/miekg/dns"
@@ -229,6 +230,68 @@ func run(r *Rng, tier string, n int) {
 				}
 				st["nordata_checked"]++
 			}
+		}
+	}
+	// (1b) RDATA-less records (RFC 2136) of every type, starting from the wire: RDLENGTH 0, unpack, pack
+	// again: the same octets must come back ("unpacking any canonical message and packing the result
+	// reproduces the same octets")
+	for _, t := range types {
+		if t == dns.TypeOPT {
+			continue
+		}
+		for _, class := range []uint16{dns.ClassANY, dns.ClassNONE} {
+			w := []byte{1, 'x', 0, byte(t >> 8), byte(t), byte(class >> 8), byte(class), 0, 0, 0, 0, 0, 0}
+			ur, rr2 := unpackRR(w, 0)
+			if rr2 == nil {
+				Viol("C01/"+dns.TypeToString[t]+"/no-rdata", "an RDATA-less record is not accepted: "+ur, inRR{dns.TypeToString[t], "", Hx(w), ""})
+				continue
+			}
+			st["nordata_wire_checked"]++
+			pr, w2 := packRR(rr2, 300)
+			if !strings.HasPrefix(pr, "ok:") || !bytes.Equal(w, w2) {
+				Viol("C01/rdataless-repack/"+dns.TypeToString[t], "Pack(Unpack(octets)) != octets for an RDATA-less record: "+pr, inRR{dns.TypeToString[t], "", Hx(w), ""})
+			}
+		}
+	}
+	// (1c) empty collections and strings: generated records with one non-name string or slice field
+	// emptied (nil, and empty with spare capacity) at a time. When such a record packs at all, it must
+	// round-trip like any other.
+	for _, t := range types {
+		if t == dns.TypeOPT {
+			continue
+		}
+		var cands []dns.RR
+		for k := 0; k < 2; k++ {
+			rr, info := GenRR(r, pool, t, false)
+			if !info.WellFormed {
+				continue
+			}
+			v := Flatten(reflect.ValueOf(rr).Elem())
+			for i := 0; i < v.NumField(); i++ {
+				f := v.Field(i)
+				tag := v.Type().Field(i).Tag.Get("dns")
+				if v.Type().Field(i).Name == "Hdr" || !f.CanSet() || (f.Kind() != reflect.Slice && f.Kind() != reflect.String) ||
+					strings.Contains(tag, "domain-name") || strings.Contains(tag, "size-") || v.Type().Field(i).Name == "GatewayAddr" {
+					continue
+				}
+				c := dns.Copy(rr)
+				cf := Flatten(reflect.ValueOf(c).Elem()).Field(i)
+				if k == 0 || cf.Kind() == reflect.String {
+					cf.Set(reflect.Zero(cf.Type()))
+				} else {
+					cf.Set(reflect.MakeSlice(cf.Type(), 0, 4)) // empty, not nil
+				}
+				cands = append(cands, c)
+			}
+		}
+		for _, c := range cands {
+			capN := dns.Len(c) + 64
+			if pr, _ := packRR(dns.Copy(c), capN); !strings.HasPrefix(pr, "ok:") {
+				st["empty_value_does_not_pack"]++
+				continue
+			}
+			st["empty_value_checked"]++
+			checkRR(c, GenInfo{WellFormed: true, Note: "empty value"}, false)
 		}
 	}
 	// (2) character-string and octet fields with backslashes (escape handling on both sides)
